@@ -390,3 +390,6 @@ def parts(tier):
     files = L.log_pass_files(max_frames=40 if tier == 'quick' else 150, array_first_channel=True)
     return [MachinePart('populate-history', make_machine(files), engine.replay_machine_case(start, step), 1500, 40000,
                         steps=14 if tier == 'quick' else 24)]
+
+
+RULE += '  Added after the seeding rounds: the summary of every X axis is read before every step (as the scanning tools do); frame types whose first channel is an array (index X not judged for them); handle positioned anywhere.'
